@@ -731,16 +731,20 @@ class Interp:
         if op in ("Add", "AddUnchecked") and (isinstance(a, Opaque) or isinstance(b, Opaque)):
             # sums of population counts stay exact: the multiset of counted bit terms
             def pop_of(x):
+                """(counted terms, constant part)"""
                 if isinstance(x, Opaque) and "pop" in x.info:
-                    return list(x.info["pop"])
-                if isinstance(x, Int) and x.is_conc() and x.val == 0:
-                    return []
+                    return list(x.info["pop"]), x.info.get("plus", 0)
+                if isinstance(x, Int) and x.is_conc() and x.val < (1 << 20):
+                    return [], x.val
                 if isinstance(x, Int) and x.sf is not None and len(x.sf) == 1 and x.sf[0][0] == 0 and len(x.sf[0][2]) < (1 << x.sf[0][1]):
-                    return list(x.sf[0][2])         # counted in the register: one exact counter in the low bits
+                    return list(x.sf[0][2]), 0         # counted in the register: one exact counter in the low bits
                 return None
             pa, pb = pop_of(a), pop_of(b)
             if pa is not None and pb is not None:
-                return Opaque(dest_ty, tags_of(a) | tags_of(b), {"pop": pa + pb, "w": 0})
+                info = {"pop": pa[0] + pb[0], "w": 0}
+                if pa[1] + pb[1]:
+                    info["plus"] = pa[1] + pb[1]
+                return Opaque(dest_ty, tags_of(a) | tags_of(b), info)
         if isinstance(a, Opaque) or isinstance(b, Opaque):
             if self.h is not None:
                 r = self.h.opaque_binop(self, op, a, b, dest_ty)
